@@ -13,7 +13,8 @@ def run(rep, tier, seed):
     if not pr['ok']:
         rep.violation({'kind': 'proof-broken', 'log': pr['log'][-3000:], 'forbidden': pr['forbidden']}, suffix='no-failing-input-found')
     nh, nops = (32, 90) if tier == 'quick' else (1200, 300)
-    k2check.run_k2(rep, 'C07', tier, seed, 'c07', nh, nops)
+    import histgen
+    k2check.run_k2(rep, 'C07', tier, seed, 'c07', nh, nops, extra_histories=[histgen.huge_value_history()])
     rep.cov['rule'] = RULES['C07'] + '; distinct_nontrivial = histories with >= 1 flush and >= 1 non-trivial compaction'
 
 def replay(rep, path):
